@@ -83,6 +83,8 @@ def write_layout(l, root, real=None):
         if state == "absent":
             continue
         os.makedirs(d, exist_ok=True)
+        if state == "empty":
+            continue
         if state == "stray":
             _write(os.path.join(d, STRAY[0]), STRAY[1])
         elif state == "jobs":
@@ -191,6 +193,8 @@ def project_disk(root, jobs, l0, real=None):
         names = set(os.listdir(d))
         if names == {STRAY[0]} and _tree(d) == {STRAY[0]: STRAY[1]}:
             dirs[loc] = "stray"
+        elif not names and jobs:
+            dirs[loc] = "empty"
         elif names == set(jobs):
             ok = all(_tree(os.path.join(d, jid)) == _job_tree(j) for jid, j in jobs.items())
             dirs[loc] = "jobs" if ok else "damaged"
